@@ -1,6 +1,922 @@
-//! C07 — not implemented yet.
-use crate::report::{Cfg, Report};
+//! C07 — quadrature rules are exact on their polynomial class and converge at order (DESIGN §3 C07).
+//!
+//! Events: return values of `trapz`, `romberg`, `quad5`, `trapezoid`.
+//! Oracle: exact antiderivatives of monomials / random polynomials in double-double with the a-priori
+//! rounding bound `|b-a|·P(X)·(32·γ_{N+4} + 16(d+1)u)`, `P(X) = Σ|c_i|·X^i`, `X = max(|a|,|b|)`
+//! (for a monomial `P(X) = max|p|`; the second term covers the rounding of the integrand closure and
+//! of the nodes); linearity, antisymmetry in the limits, `Q(a,a) = 0`; a catalogue of 22 smooth
+//! integrands with closed antiderivative and an upper bound of max|f''| for the trapezoid error bound
+//! and Romberg's tolerance-order bound (the level budget is judged on a reference tableau kept in
+//! double-double); sampled `trapezoid` against `Σ (y_i+y_{i-1})/2·Δx_i` in double-double.
+//!
+//! `trapz` is watched through four assertions only (`affine_exact`, `linearity`, `antisymmetry`,
+//! `error_bound`), each split into the regime where the end-point value f(a) (resp. f(a) − f(b))
+//! vanishes and the regime where it does not, so a wrong end-point weight has a signature of its own.
+use crate::gen::Rng;
+use crate::oracle::dd::{gamma_n, Dd, U};
+use crate::report::{guard, jf, jnum, par_cases, Cfg, Hasher, Report};
+use compute::integrate::{quad5, romberg, trapezoid, trapz};
+use serde_json::{json, Value};
+use std::cell::Cell;
+use std::f64::consts::{FRAC_PI_2, LN_2, PI};
 
-pub fn run(_cfg: &Cfg, rep: &mut Report) {
-    rep.inconclusive("monitor for C07 not implemented".to_string());
+// ---------------------------------------------------------------------------------------------
+// rules
+
+#[derive(Clone, Copy, Debug, PartialEq)]
+enum Rule {
+    Trapz(usize),
+    /// romberg(f, a, b, 0, k): eps = 0 disables the early exit, the full k-level tableau is used
+    Romberg(usize),
+    Quad5,
+}
+impl Rule {
+    fn name(self) -> &'static str {
+        match self {
+            Rule::Trapz(_) => "trapz",
+            Rule::Romberg(_) => "romberg",
+            Rule::Quad5 => "quad5",
+        }
+    }
+    fn evals(self) -> usize {
+        match self {
+            Rule::Trapz(n) => n + 2,
+            Rule::Romberg(k) => (1usize << (k - 1)) + 1,
+            Rule::Quad5 => 10,
+        }
+    }
+    fn js(self) -> Value {
+        match self {
+            Rule::Trapz(n) => json!({"trapz_panels": n}),
+            Rule::Romberg(k) => json!({"romberg_eps": 0.0, "romberg_nmax": k}),
+            Rule::Quad5 => json!("quad5"),
+        }
+    }
+    fn tag(self) -> u64 {
+        match self {
+            Rule::Trapz(n) => 1_000_000 + n as u64,
+            Rule::Romberg(k) => 2_000_000 + k as u64,
+            Rule::Quad5 => 3_000_000,
+        }
+    }
+}
+
+/// records how often the integrand was evaluated and the largest |value| it returned
+struct Probe {
+    n: Cell<u64>,
+    m: Cell<f64>,
+}
+impl Probe {
+    fn new() -> Self {
+        Probe { n: Cell::new(0), m: Cell::new(0.0) }
+    }
+    fn hit(&self, v: f64) -> f64 {
+        self.n.set(self.n.get() + 1);
+        if v.abs() > self.m.get() || v.is_nan() {
+            self.m.set(v.abs());
+        }
+        v
+    }
+}
+
+fn apply(rule: Rule, f: &dyn Fn(f64) -> f64, a: f64, b: f64) -> Result<f64, String> {
+    guard(|| match rule {
+        Rule::Trapz(n) => trapz(f, a, b, n),
+        Rule::Romberg(k) => romberg(f, a, b, 0.0, k),
+        Rule::Quad5 => quad5(f, a, b),
+    })
+}
+/// apply with a probe: (value, evaluations, max |f| at the nodes)
+fn apply_probed(rule: Rule, f: &dyn Fn(f64) -> f64, a: f64, b: f64) -> Result<(f64, u64, f64), String> {
+    let p = Probe::new();
+    let g = |x: f64| p.hit(f(x));
+    let v = apply(rule, &g, a, b)?;
+    Ok((v, p.n.get(), p.m.get()))
+}
+
+// ---------------------------------------------------------------------------------------------
+// polynomials
+
+#[derive(Clone, Debug)]
+struct Poly {
+    c: Vec<f64>,
+    /// Some(d): the pure monomial x^d evaluated with powi
+    mono: Option<i32>,
+}
+impl Poly {
+    fn monomial(d: usize) -> Poly {
+        let mut c = vec![0.0; d + 1];
+        c[d] = 1.0;
+        Poly { c, mono: Some(d as i32) }
+    }
+    /// random polynomial of a random degree in lo..=hi
+    fn random_deg(rng: &mut Rng, lo: usize, hi: usize) -> Poly {
+        let d = rng.usize(lo, hi);
+        Poly::random(rng, d)
+    }
+    fn random(rng: &mut Rng, d: usize) -> Poly {
+        let ints = rng.chance(0.25);
+        let s = 10f64.powf(rng.range(-2.0, 2.0));
+        let mut c: Vec<f64> = (0..=d).map(|_| if ints { rng.int(-9, 9) as f64 } else { rng.normal() * s }).collect();
+        if c[d] == 0.0 {
+            c[d] = 1.0;
+        }
+        Poly { c, mono: None }
+    }
+    fn deg(&self) -> usize {
+        self.c.len() - 1
+    }
+    fn eval(&self, x: f64) -> f64 {
+        if let Some(d) = self.mono {
+            return x.powi(d);
+        }
+        let mut s = 0.0;
+        for &c in self.c.iter().rev() {
+            s = s * x + c;
+        }
+        s
+    }
+    /// Σ |c_i| X^i
+    fn absval(&self, x: f64) -> f64 {
+        let mut s = 0.0;
+        for &c in self.c.iter().rev() {
+            s = s * x.abs() + c.abs();
+        }
+        s
+    }
+    /// exact ∫_a^b p in double-double
+    fn integral(&self, a: f64, b: f64) -> Dd {
+        let (da, db) = (Dd::new(a), Dd::new(b));
+        let (mut pa, mut pb) = (da, db);
+        let mut s = Dd::ZERO;
+        for (i, &c) in self.c.iter().enumerate() {
+            if c != 0.0 {
+                s = s + Dd::new(c) * (pb - pa) / Dd::new(i as f64 + 1.0);
+            }
+            pa = pa * da;
+            pb = pb * db;
+        }
+        s
+    }
+    fn js(&self) -> Value {
+        match self.mono {
+            Some(d) => json!(format!("x^{}", d)),
+            None => json!({"coefficients_low_to_high": jf(&self.c)}),
+        }
+    }
+}
+
+/// a-priori rounding bound for a rule applied to a polynomial of degree d (see module doc)
+fn poly_tol(rule: Rule, a: f64, b: f64, pabs: f64, d: usize) -> f64 {
+    (b - a).abs() * pabs * (32.0 * gamma_n(rule.evals() + 4) + 16.0 * (d as f64 + 1.0) * U) + 1e-300
+}
+
+// ---------------------------------------------------------------------------------------------
+// intervals
+
+fn gen_interval(rng: &mut Rng) -> (f64, f64) {
+    let (mut a, mut b) = match rng.usize(0, 5) {
+        0 => (rng.range(-1e3, 1e3), rng.range(-1e3, 1e3)),
+        1 => {
+            let a = rng.range(-2.0, 2.0);
+            (a, a + rng.log_range(0.01, 4.0))
+        }
+        2 => {
+            let c = rng.log_range(0.1, 1e3);
+            (-c, c)
+        }
+        3 => {
+            let a = rng.range(10.0, 999.0) * if rng.bool() { 1.0 } else { -1.0 };
+            let w = rng.log_range(1e-3, 10.0);
+            (a, (a + w).min(1e3))
+        }
+        4 => dyadic_interval(rng, -64.0, 64.0, 128.0),
+        _ => (0.0, rng.log_range(0.1, 1e3)),
+    };
+    if a == b {
+        b = a + 1.0;
+    }
+    if a > b {
+        std::mem::swap(&mut a, &mut b);
+    }
+    if rng.chance(0.4) {
+        std::mem::swap(&mut a, &mut b); // a > b
+    }
+    (a, b)
+}
+/// end points that are multiples of 2^-6 inside [lo, hi], a < b, length <= maxlen
+fn dyadic_interval(rng: &mut Rng, lo: f64, hi: f64, maxlen: f64) -> (f64, f64) {
+    let (l, h) = ((lo * 64.0).ceil() as i64, (hi * 64.0).floor() as i64);
+    let a = rng.int(l, h - 1);
+    let w = rng.int(1, ((maxlen * 64.0) as i64).min(h - a).max(1));
+    (a as f64 / 64.0, (a + w) as f64 / 64.0)
+}
+fn orient(rep: &mut Report, a: f64, b: f64) {
+    rep.seen(if a < b { "interval:a<b" } else if a > b { "interval:a>b" } else { "interval:a=b" }, 1);
+}
+fn panels(rng: &mut Rng) -> usize {
+    match rng.usize(0, 3) {
+        0 => *rng.choose(&[1usize, 2, 3, 4, 5, 7, 8, 16, 100, 1000, 4096]),
+        1 => rng.usize(1, 12),
+        _ => rng.log_range(1.0, 4096.99).floor() as usize,
+    }
+}
+
+// ---------------------------------------------------------------------------------------------
+// smooth catalogue
+
+fn max_abs_sin(lo: f64, hi: f64) -> f64 {
+    if hi - lo >= PI {
+        return 1.0;
+    }
+    let k = ((lo - FRAC_PI_2) / PI).ceil();
+    if FRAC_PI_2 + k * PI <= hi + 1e-9 {
+        1.0
+    } else {
+        lo.sin().abs().max(hi.sin().abs())
+    }
+}
+fn max_abs_cos(lo: f64, hi: f64) -> f64 {
+    max_abs_sin(lo + FRAC_PI_2, hi + FRAC_PI_2)
+}
+/// max of |g| over the end points and the given stationary points of g inside [lo, hi]
+fn ext(g: fn(f64) -> f64, lo: f64, hi: f64, crits: &[f64]) -> f64 {
+    let mut m = g(lo).abs().max(g(hi).abs());
+    for &c in crits {
+        if c > lo && c < hi {
+            m = m.max(g(c).abs());
+        }
+    }
+    m
+}
+fn runge2(x: f64) -> f64 {
+    (6.0 * x * x - 2.0) / (1.0 + x * x).powi(3)
+}
+const C_TANH: f64 = 0.658_478_948_462_408_4; // atanh(1/sqrt 3)
+const C_LOGI: f64 = 1.316_957_896_924_816_6; // ln(2 + sqrt 3)
+const C_ATAN: f64 = 0.577_350_269_189_625_8; // 1/sqrt 3
+const C_LNX: f64 = 6.254_470_329_092_969; // e^(11/6)
+
+struct Smooth {
+    name: &'static str,
+    f: fn(f64) -> f64,
+    /// antiderivative: (value, Σ|terms|) — the second number scales the rounding allowance
+    af: fn(f64) -> (f64, f64),
+    /// upper bound of max |f''| on [lo, hi]
+    m2: fn(f64, f64) -> f64,
+    dom: (f64, f64),
+    /// longest interval used with tolerance-driven Romberg (keeps oscillatory integrands resolved)
+    rlen: f64,
+}
+
+fn catalogue() -> Vec<Smooth> {
+    vec![
+        Smooth { name: "sin x", f: |x| x.sin(), af: |x| (-x.cos(), 1.0), m2: max_abs_sin, dom: (-1e3, 1e3), rlen: 8.0 },
+        Smooth { name: "cos x", f: |x| x.cos(), af: |x| (x.sin(), 1.0), m2: max_abs_cos, dom: (-1e3, 1e3), rlen: 8.0 },
+        Smooth { name: "exp x", f: |x| x.exp(), af: |x| (x.exp(), x.exp()), m2: |_, hi| hi.exp(), dom: (-10.0, 10.0), rlen: 8.0 },
+        Smooth { name: "exp(-x)", f: |x| (-x).exp(), af: |x| (-(-x).exp(), (-x).exp()), m2: |lo, _| (-lo).exp(), dom: (-10.0, 10.0), rlen: 8.0 },
+        Smooth { name: "1/(1+x^2)", f: |x| 1.0 / (1.0 + x * x), af: |x| (x.atan(), FRAC_PI_2), m2: |lo, hi| ext(runge2, lo, hi, &[-1.0, 0.0, 1.0]), dom: (-1e3, 1e3), rlen: 10.0 },
+        Smooth { name: "1/x", f: |x| 1.0 / x, af: |x| (x.ln(), x.ln().abs() + 1.0), m2: |lo, _| 2.0 / (lo * lo * lo), dom: (0.1, 1e3), rlen: 20.0 },
+        Smooth { name: "ln x", f: |x| x.ln(), af: |x| (x * x.ln() - x, (x * x.ln()).abs() + x), m2: |lo, _| 1.0 / (lo * lo), dom: (0.1, 1e3), rlen: 20.0 },
+        Smooth { name: "sqrt x", f: |x| x.sqrt(), af: |x| (x * x.sqrt() / 1.5, x * x.sqrt()), m2: |lo, _| 0.25 / (lo * lo.sqrt()), dom: (0.01, 1e3), rlen: 20.0 },
+        Smooth {
+            name: "x sqrt(1+2x)",
+            f: |x| x * (1.0 + 2.0 * x).sqrt(),
+            af: |x| {
+                let u = 1.0 + 2.0 * x;
+                (u * u * u.sqrt() / 10.0 - u * u.sqrt() / 6.0, u * u * u.sqrt() / 10.0 + u * u.sqrt() / 6.0)
+            },
+            m2: |lo, _| (2.0 + 3.0 * lo) / ((1.0 + 2.0 * lo) * (1.0 + 2.0 * lo).sqrt()),
+            dom: (0.0, 100.0),
+            rlen: 20.0,
+        },
+        Smooth { name: "sin^2 x cos^2 x", f: |x| x.sin().powi(2) * x.cos().powi(2), af: |x| (x / 8.0 - (4.0 * x).sin() / 32.0, x.abs() / 8.0 + 1.0 / 32.0), m2: |lo, hi| 2.0 * max_abs_cos(4.0 * lo, 4.0 * hi), dom: (-50.0, 50.0), rlen: 4.0 },
+        Smooth { name: "sin^3 x cos x", f: |x| x.sin().powi(3) * x.cos(), af: |x| (x.sin().powi(4) / 4.0, 0.25), m2: |_, _| 3.0, dom: (-50.0, 50.0), rlen: 4.0 },
+        Smooth { name: "1/(3x-7)^2", f: |x| 1.0 / (3.0 * x - 7.0).powi(2), af: |x| (-1.0 / (3.0 * (3.0 * x - 7.0)), 1.0 / (3.0 * (3.0 * x - 7.0))), m2: |lo, _| 54.0 / (3.0 * lo - 7.0).powi(4), dom: (3.0, 1e3), rlen: 20.0 },
+        Smooth { name: "ln x / x", f: |x| x.ln() / x, af: |x| (x.ln() * x.ln() / 2.0, x.ln() * x.ln() / 2.0), m2: |lo, hi| ext(|x| (2.0 * x.ln() - 3.0) / (x * x * x), lo, hi, &[C_LNX]), dom: (1.0, 1e3), rlen: 20.0 },
+        Smooth {
+            name: "tanh x",
+            f: |x| x.tanh(),
+            af: |x| (x.abs() + (-2.0 * x.abs()).exp().ln_1p() - LN_2, x.abs() + 2.0 * LN_2),
+            m2: |lo, hi| ext(|x| 2.0 * x.tanh() * (1.0 - x.tanh() * x.tanh()), lo, hi, &[-C_TANH, C_TANH]),
+            dom: (-20.0, 20.0),
+            rlen: 10.0,
+        },
+        Smooth { name: "x exp(-x)", f: |x| x * (-x).exp(), af: |x| (-(x + 1.0) * (-x).exp(), (x.abs() + 1.0) * (-x).exp()), m2: |lo, hi| ext(|x| (x - 2.0) * (-x).exp(), lo, hi, &[3.0]), dom: (-3.0, 30.0), rlen: 10.0 },
+        Smooth { name: "cosh x", f: |x| x.cosh(), af: |x| (x.sinh(), x.cosh()), m2: |lo, hi| lo.abs().max(hi.abs()).cosh(), dom: (-10.0, 10.0), rlen: 8.0 },
+        Smooth {
+            name: "1/(1+exp(-x))",
+            f: |x| 1.0 / (1.0 + (-x).exp()),
+            af: |x| (x.max(0.0) + (-x.abs()).exp().ln_1p(), x.abs() + LN_2),
+            m2: |lo, hi| {
+                ext(
+                    |x| {
+                        let s = 1.0 / (1.0 + (-x).exp());
+                        s * (1.0 - s) * (1.0 - 2.0 * s)
+                    },
+                    lo,
+                    hi,
+                    &[-C_LOGI, C_LOGI],
+                )
+            },
+            dom: (-30.0, 30.0),
+            rlen: 10.0,
+        },
+        Smooth { name: "x sin x", f: |x| x * x.sin(), af: |x| (x.sin() - x * x.cos(), 1.0 + x.abs()), m2: |lo, hi| 2.0 + lo.abs().max(hi.abs()), dom: (-50.0, 50.0), rlen: 8.0 },
+        Smooth { name: "exp(x) sin x", f: |x| x.exp() * x.sin(), af: |x| (x.exp() * (x.sin() - x.cos()) / 2.0, x.exp()), m2: |_, hi| 2.0 * hi.exp(), dom: (-5.0, 5.0), rlen: 6.0 },
+        Smooth { name: "x^4", f: |x| x * x * x * x, af: |x| (x.powi(5) / 5.0, x.powi(5).abs() / 5.0), m2: |lo, hi| 12.0 * (lo * lo).max(hi * hi), dom: (-10.0, 10.0), rlen: 20.0 },
+        Smooth { name: "atan x", f: |x| x.atan(), af: |x| (x * x.atan() - 0.5 * (x * x).ln_1p(), (x * x.atan()).abs() + 0.5 * (x * x).ln_1p()), m2: |lo, hi| ext(|x| 2.0 * x / (1.0 + x * x).powi(2), lo, hi, &[-C_ATAN, C_ATAN]), dom: (-100.0, 100.0), rlen: 10.0 },
+        Smooth { name: "1/(1+25x^2)", f: |x| 1.0 / (1.0 + 25.0 * x * x), af: |x| ((5.0 * x).atan() / 5.0, FRAC_PI_2 / 5.0), m2: |lo, hi| 25.0 * ext(runge2, 5.0 * lo, 5.0 * hi, &[-1.0, 0.0, 1.0]), dom: (-5.0, 5.0), rlen: 4.0 },
+    ]
+}
+
+/// random interval inside the entry's domain: (a, b) with a != b, |b-a| <= maxlen, either orientation
+fn smooth_interval(rng: &mut Rng, s: &Smooth, maxlen: f64, dyadic: bool) -> (f64, f64) {
+    let (lo, hi) = s.dom;
+    let (mut a, mut b);
+    if dyadic {
+        let (x, y) = dyadic_interval(rng, lo.max(-64.0), hi.min(64.0), maxlen.min(16.0));
+        a = x;
+        b = y;
+    } else {
+        let len = rng.log_range(0.05, maxlen.min(hi - lo));
+        a = if rng.chance(0.5) { lo + (hi - lo - len) * rng.f64() } else { (lo + (hi - lo - len).min(6.0) * rng.f64()).max(lo) };
+        if rng.chance(0.3) {
+            // near the middle of the domain (0 for the symmetric ones)
+            a = (0.5 * (lo + hi) - len * rng.f64()).max(lo);
+        }
+        b = (a + len).min(hi);
+    }
+    if rng.chance(0.35) {
+        std::mem::swap(&mut a, &mut b);
+    }
+    (a, b)
+}
+
+/// I = F(b) − F(a) and the rounding allowance of this reference value
+fn smooth_integral(s: &Smooth, a: f64, b: f64) -> (f64, f64) {
+    let (fa, sa) = (s.af)(a);
+    let (fb, sb) = (s.af)(b);
+    (Dd::sum2(fb, -fa).f(), 16.0 * U * (sa + sb))
+}
+
+// ---------------------------------------------------------------------------------------------
+// reference Romberg tableau (double-double tableau on f64 integrand values at the library's nodes)
+
+struct RefTab<'a> {
+    f: &'a dyn Fn(f64) -> f64,
+    a: f64,
+    b: f64,
+    rows: Vec<Vec<Dd>>,
+}
+impl<'a> RefTab<'a> {
+    fn new(f: &'a dyn Fn(f64) -> f64, a: f64, b: f64) -> Self {
+        let r00 = Dd::sum2(b, -a) * Dd::new(0.5) * Dd::sum2(f(a), f(b));
+        RefTab { f, a, b, rows: vec![vec![r00]] }
+    }
+    /// diagonal entry R[n][n], computing further rows on demand
+    fn diag(&mut self, n: usize) -> f64 {
+        while self.rows.len() <= n {
+            let k = self.rows.len();
+            let hn = (self.b - self.a) / 2f64.powi(k as i32);
+            let mut s = Dd::ZERO;
+            for j in 1..=(1u64 << (k - 1)) {
+                s = s + Dd::new((self.f)(self.a + (2 * j - 1) as f64 * hn));
+            }
+            let mut row = vec![self.rows[k - 1][0] * Dd::new(0.5) + s * Dd::sum2(self.b, -self.a) / Dd::new(2f64.powi(k as i32))];
+            for m in 1..=k {
+                let d = row[m - 1] - self.rows[k - 1][m - 1];
+                row.push(row[m - 1] + d / Dd::new(4f64.powi(m as i32) - 1.0));
+            }
+            self.rows.push(row);
+        }
+        self.rows[n][n].f()
+    }
+}
+/// the library's stopping criterion
+fn stop_crit(x: f64, y: f64, eps: f64) -> bool {
+    let rd = if x == 0.0 {
+        y.abs()
+    } else if y == 0.0 {
+        x.abs()
+    } else {
+        (x.abs() - y.abs()).abs() / x.abs().min(y.abs())
+    };
+    rd < eps || (x - y).abs() < eps
+}
+
+// ---------------------------------------------------------------------------------------------
+// checks
+
+fn ctx(rule: Rule, integrand: Value, a: f64, b: f64, extra: Value) -> Value {
+    json!({"rule": rule.js(), "integrand": integrand, "a": a, "b": b, "detail": extra})
+}
+
+/// exactness of `rule` on polynomial `p` over [a,b]; returns error/tolerance
+fn check_exact(rep: &mut Report, assertion: &str, regime: &str, rule: Rule, p: &Poly, f: &dyn Fn(f64) -> f64, pabs: f64, a: f64, b: f64, integral: Dd, assert: bool) -> f64 {
+    let d = p.deg();
+    let tol = poly_tol(rule, a, b, pabs, d);
+    let np = format!("C07.{}.no_panic", rule.name());
+    match apply(rule, f, a, b) {
+        Err(msg) => {
+            rep.check(&np, regime, false, || ctx(rule, p.js(), a, b, json!({"panic": msg})));
+            f64::NAN
+        }
+        Ok(q) => {
+            rep.check(&np, regime, true, || json!(null));
+            let err = (Dd::new(q) - integral).f().abs();
+            let ok = err <= tol; // NaN fails
+            if assert {
+                rep.check(assertion, regime, ok, || ctx(rule, p.js(), a, b, json!({"observed": jnum(q), "expected": integral.f(), "abs_err": jnum(err), "tol": tol, "f(a)": jnum(f(a)), "f(b)": jnum(f(b))})));
+            }
+            if err.is_nan() {
+                f64::INFINITY
+            } else {
+                err / tol
+            }
+        }
+    }
+}
+
+fn exact_trapz(rng: &mut Rng, rep: &mut Report) {
+    let (a, b) = gen_interval(rng);
+    let n = panels(rng);
+    let rule = Rule::Trapz(n);
+    orient(rep, a, b);
+    let x = a.abs().max(b.abs());
+    // half of the cases: an affine integrand with a root at the lower limit, f(x) = c·(x − a)
+    if rng.chance(0.4) {
+        let c = if rng.chance(0.3) { 1.0 } else { rng.normal() * 10f64.powf(rng.range(-2.0, 2.0)) };
+        let f = move |t: f64| c * (t - a);
+        let p = Poly { c: vec![-c * a, c], mono: None };
+        let w = Dd::sum2(b, -a);
+        let integral = Dd::new(c) * w * w * Dd::new(0.5);
+        let regime = "trapz:affine:f(a)=0";
+        rep.case(regime);
+        rep.distinct(Hasher::new().u(rule.tag()).f(a).f(b).f(c).u(1).finish(), c != 0.0);
+        let r = check_exact(rep, "C07.trapz.affine_exact", regime, rule, &p, &f, 2.0 * c.abs() * x, a, b, integral, true);
+        rep.note_max("worst_ratio.trapz_affine_exact.f(a)=0", r);
+        return;
+    }
+    let p = match rng.usize(0, 3) {
+        0 => Poly::monomial(0),
+        1 => Poly::monomial(1),
+        _ => Poly::random(rng, 1),
+    };
+    let f = |t: f64| p.eval(t);
+    let regime = if f(a) == 0.0 { "trapz:affine:f(a)=0" } else { "trapz:affine:f(a)!=0" };
+    rep.case(regime);
+    rep.distinct(Hasher::new().u(rule.tag()).f(a).f(b).fs(&p.c).finish(), true);
+    let r = check_exact(rep, "C07.trapz.affine_exact", regime, rule, &p, &f, p.absval(x), a, b, p.integral(a, b), true);
+    if regime.ends_with("f(a)=0") {
+        rep.note_max("worst_ratio.trapz_affine_exact.f(a)=0", r);
+    } else {
+        rep.note_max("observed_worst_ratio.trapz_affine_exact.f(a)!=0", r);
+    }
+    rep.sample(|| json!({"rule": rule.js(), "integrand": p.js(), "a": a, "b": b, "regime": regime, "err_over_tol": jnum(r)}));
+}
+
+fn exact_romberg(rng: &mut Rng, rep: &mut Report, deep: bool) {
+    let (a, b) = gen_interval(rng);
+    orient(rep, a, b);
+    let k = if deep { rng.usize(13, 20) } else if rng.chance(0.6) { rng.usize(2, 6) } else { rng.usize(7, 12) };
+    let dmax = if deep { 3 } else { (2 * k - 1).min(23) };
+    let d = match rng.usize(0, 4) {
+        0 | 1 => dmax,
+        2 => dmax.saturating_sub(1),
+        _ => rng.usize(0, dmax),
+    };
+    let mono = rng.chance(0.5) && d <= 19;
+    let p = if mono { Poly::monomial(d) } else { Poly::random(rng, d) };
+    let f = |t: f64| p.eval(t);
+    let rule = Rule::Romberg(k);
+    let regime = if deep { "romberg:lowdeg:k=13..20" } else if mono { "romberg:monomial:k=2..12" } else { "romberg:randpoly:k=2..12" };
+    rep.case(regime);
+    rep.seen(&format!("romberg:k={}", k), 1);
+    if d == 2 * k - 1 {
+        rep.seen("romberg:top-degree-2k-1", 1);
+    }
+    rep.distinct(Hasher::new().u(rule.tag()).f(a).f(b).fs(&p.c).finish(), d >= 1);
+    let x = a.abs().max(b.abs());
+    let r = check_exact(rep, "C07.romberg.poly_exact", regime, rule, &p, &f, p.absval(x), a, b, p.integral(a, b), true);
+    rep.note_max(if deep { "worst_ratio.romberg_poly_exact.deep" } else { "worst_ratio.romberg_poly_exact" }, r);
+}
+
+fn exact_quad5(rng: &mut Rng, rep: &mut Report) {
+    let (a, b) = gen_interval(rng);
+    orient(rep, a, b);
+    let beyond = rng.chance(0.15); // degree 10..19: not promised by the property, recorded only
+    let d = if beyond { rng.usize(10, 19) } else if rng.chance(0.4) { rng.usize(8, 9) } else { rng.usize(0, 9) };
+    let mono = rng.chance(0.5);
+    let p = if mono { Poly::monomial(d) } else { Poly::random(rng, d) };
+    let f = |t: f64| p.eval(t);
+    let regime = if beyond { "quad5:deg10..19(info)" } else if mono { "quad5:monomial:deg<=9" } else { "quad5:randpoly:deg<=9" };
+    rep.case(regime);
+    rep.seen(&format!("quad5:deg={}", d), 1);
+    rep.distinct(Hasher::new().u(Rule::Quad5.tag()).f(a).f(b).fs(&p.c).finish(), d >= 1);
+    let x = a.abs().max(b.abs());
+    let r = check_exact(rep, "C07.quad5.poly_exact", regime, Rule::Quad5, &p, &f, p.absval(x), a, b, p.integral(a, b), !beyond);
+    rep.note_max(if beyond { "info.worst_ratio.quad5_deg10..19" } else { "worst_ratio.quad5_poly_exact" }, r);
+}
+
+fn pick_rule(rng: &mut Rng, which: usize) -> Rule {
+    match which {
+        0 => Rule::Trapz(panels(rng)),
+        1 => Rule::Romberg(if rng.chance(0.8) { rng.usize(2, 9) } else { rng.usize(10, 14) }),
+        _ => Rule::Quad5,
+    }
+}
+
+/// Q(αf+βg) = αQf + βQg
+fn linearity(rng: &mut Rng, rep: &mut Report, which: usize, cat: &[Smooth]) {
+    let rule = pick_rule(rng, which);
+    let bounded: Vec<&Smooth> = cat.iter().filter(|s| s.dom.0 <= -50.0 && s.dom.1 >= 50.0).collect();
+    let (a, b) = {
+        let (a, b) = gen_interval(rng);
+        (a.clamp(-50.0, 50.0), b.clamp(-50.0, 50.0))
+    };
+    let (a, b) = if a == b { (a, a + 1.0) } else { (a, b) };
+    orient(rep, a, b);
+    let p1 = Poly::random_deg(rng, 0, 5);
+    let p2 = Poly::random_deg(rng, 0, 5);
+    let s2 = *rng.choose(&bounded);
+    let use_smooth = rng.chance(0.5);
+    let f = |t: f64| p1.eval(t);
+    let g = |t: f64| if use_smooth { (s2.f)(t) } else { p2.eval(t) };
+    let (al, be) = (rng.normal() * 10f64.powf(rng.range(-1.0, 1.0)), rng.normal() * 10f64.powf(rng.range(-1.0, 1.0)));
+    let h = |t: f64| al * f(t) + be * g(t);
+    let regime = rule.name();
+    rep.case(&format!("{}:linearity", regime));
+    rep.distinct(Hasher::new().s("lin").u(rule.tag()).f(a).f(b).fs(&p1.c).f(al).f(be).finish(), true);
+    let assertion = format!("C07.{}.linearity", rule.name());
+    let desc = json!({"f": p1.js(), "g": if use_smooth { json!(s2.name) } else { p2.js() }, "alpha": al, "beta": be});
+    let r = (apply_probed(rule, &f, a, b), apply_probed(rule, &g, a, b), apply_probed(rule, &h, a, b));
+    match r {
+        (Ok((qf, _, mf)), Ok((qg, _, mg)), Ok((qh, _, _))) => {
+            // node perturbation does not enter: the three calls use bit-identical nodes
+            let tol = 32.0 * gamma_n(rule.evals() + 4) * (b - a).abs() * (al.abs() * mf + be.abs() * mg) + 1e-300;
+            let err = (Dd::new(qh) - (Dd::prod(al, qf) + Dd::prod(be, qg))).f().abs();
+            rep.note_max(&format!("worst_ratio.linearity.{}", rule.name()), err / tol);
+            rep.check(&assertion, regime, err <= tol, || ctx(rule, desc.clone(), a, b, json!({"Q(f)": qf, "Q(g)": qg, "Q(alpha f + beta g)": qh, "abs_err": jnum(err), "tol": tol})));
+        }
+        (x, y, z) => {
+            let msg = [x.err(), y.err(), z.err()].iter().flatten().next().cloned().unwrap_or_default();
+            rep.check(&format!("C07.{}.no_panic", rule.name()), &format!("{}:linearity", regime), false, || ctx(rule, desc.clone(), a, b, json!({"panic": msg})));
+        }
+    }
+}
+
+/// Q(a,b) = −Q(b,a)
+fn antisymmetry(rng: &mut Rng, rep: &mut Report, which: usize, cat: &[Smooth]) {
+    let rule0 = pick_rule(rng, which);
+    let kind = rng.usize(0, 3);
+    // kind 0: even polynomial about the midpoint on a dyadic interval (f(a) = f(b) bitwise)
+    // kind 1: random polynomial, any interval; kind 2: monomial; kind 3: smooth entry on a dyadic interval, dyadic rule
+    let (rule, a, b, desc, f, tol_rel): (Rule, f64, f64, Value, Box<dyn Fn(f64) -> f64>, f64) = match kind {
+        0 => {
+            let (a, b) = dyadic_interval(rng, -64.0, 64.0, 128.0);
+            let m = 0.5 * (a + b);
+            let (c0, c2) = (rng.normal() * 3.0, if rng.chance(0.2) { 0.0 } else { rng.normal() });
+            let x = 2.0 * a.abs().max(b.abs());
+            let pabs = c0.abs() + c2.abs() * x * x;
+            (rule0, a, b, json!({"even_about_midpoint": {"c0": c0, "c2": c2, "m": m}}), Box::new(move |t: f64| c0 + c2 * (t - m) * (t - m)), pabs * (64.0 * gamma_n(rule0.evals() + 4) + 32.0 * 3.0 * U))
+        }
+        1 | 2 => {
+            let (a, b) = gen_interval(rng);
+            let p = if kind == 1 { Poly::random_deg(rng, 0, 5) } else { Poly::monomial(rng.usize(0, 7)) };
+            let pabs = p.absval(a.abs().max(b.abs()));
+            let d = p.deg();
+            (rule0, a, b, p.js(), Box::new(move |t: f64| p.eval(t)), pabs * (64.0 * gamma_n(rule0.evals() + 4) + 32.0 * (d as f64 + 1.0) * U))
+        }
+        _ => {
+            let s = rng.choose(cat);
+            let (a, b) = smooth_interval(rng, s, 16.0, true);
+            let rule = match rule0 {
+                Rule::Trapz(_) => Rule::Trapz(1 << rng.usize(0, 12)),
+                r => r,
+            };
+            let fp = s.f;
+            // nodes are exact dyadic numbers in both directions: only the summation order differs;
+            // max|f| is measured at the nodes below
+            (rule, a, b, json!(s.name), Box::new(move |t: f64| fp(t)), -1.0)
+        }
+    };
+    orient(rep, a, b);
+    let fa = f(a);
+    let fb = f(b);
+    let regime = match rule {
+        Rule::Trapz(_) => (if fa == fb { "trapz:f(a)=f(b)" } else { "trapz:f(a)!=f(b)" }).to_string(),
+        r => r.name().to_string(),
+    };
+    rep.case(&format!("{}:antisymmetry", regime));
+    rep.distinct(Hasher::new().s("anti").u(rule.tag()).f(a).f(b).f(fa).f(fb).finish(), true);
+    let assertion = format!("C07.{}.antisymmetry", rule.name());
+    match (apply_probed(rule, &*f, a, b), apply_probed(rule, &*f, b, a)) {
+        (Ok((q1, _, m1)), Ok((q2, _, m2))) => {
+            let tol = (b - a).abs() * if tol_rel >= 0.0 { tol_rel } else { 64.0 * gamma_n(rule.evals() + 4) * m1.max(m2) } + 1e-300;
+            let err = (q1 + q2).abs();
+            let key = if regime == "trapz:f(a)!=f(b)" { "observed_worst_ratio.antisymmetry.trapz:f(a)!=f(b)".to_string() } else { format!("worst_ratio.antisymmetry.{}", regime) };
+            rep.note_max(&key, if err.is_nan() { f64::INFINITY } else { err / tol });
+            rep.check(&assertion, &regime, err <= tol, || ctx(rule, desc.clone(), a, b, json!({"Q(a,b)": jnum(q1), "Q(b,a)": jnum(q2), "sum": jnum(q1 + q2), "tol": tol, "f(a)": jnum(fa), "f(b)": jnum(fb)})));
+        }
+        (x, y) => {
+            let msg = x.err().or(y.err()).unwrap_or_default();
+            rep.check(&format!("C07.{}.no_panic", rule.name()), &format!("{}:antisymmetry", regime), false, || ctx(rule, desc.clone(), a, b, json!({"panic": msg})));
+        }
+    }
+}
+
+/// Q(a,a) = 0
+fn zero_width(rng: &mut Rng, rep: &mut Report, cat: &[Smooth]) {
+    let s = rng.choose(cat);
+    let a = (s.dom.0 + (s.dom.1 - s.dom.0) * rng.f64()).clamp(-1e3, 1e3);
+    let p = Poly::random_deg(rng, 0, 9);
+    let usep = rng.bool();
+    let fp = s.f;
+    let f = |t: f64| if usep { p.eval(t) } else { fp(t) };
+    let desc = if usep { p.js() } else { json!(s.name) };
+    orient(rep, a, a);
+    let n = panels(rng);
+    for (name, r) in [
+        ("trapz", guard(|| trapz(&f, a, a, n))),
+        ("romberg", guard(|| romberg(&f, a, a, 0.0, 6))),
+        ("romberg", guard(|| romberg(&f, a, a, 1e-8, 6))),
+        ("quad5", guard(|| quad5(&f, a, a))),
+    ] {
+        rep.case("a=b");
+        let ok = matches!(&r, Ok(v) if *v == 0.0);
+        rep.check(&format!("C07.{}.zero_width", name), "a=b", ok, || json!({"integrand": desc.clone(), "a": a, "b": a, "observed": match &r { Ok(v) => jnum(*v), Err(e) => json!({"panic": e}) }, "expected": 0.0}));
+    }
+    rep.distinct(Hasher::new().s("zero").f(a).fs(&p.c).finish(), false);
+}
+
+/// trapezoid error bound on the smooth catalogue
+fn smooth_trapz(rng: &mut Rng, rep: &mut Report, cat: &[Smooth]) {
+    let s = rng.choose(cat);
+    let (a, b) = smooth_interval(rng, s, 60.0, false);
+    orient(rep, a, b);
+    let n = panels(rng);
+    let rule = Rule::Trapz(n);
+    let rooted = rng.chance(0.4); // integrand shifted to vanish at the lower limit: g = f − f(a)
+    let fp = s.f;
+    let fa0 = fp(a);
+    let shift = if rooted { fa0 } else { 0.0 };
+    let f = |t: f64| fp(t) - shift;
+    let regime = if f(a) == 0.0 { "trapz:smooth:f(a)=0" } else { "trapz:smooth:f(a)!=0" };
+    rep.case(regime);
+    rep.seen(&format!("smooth:{}", s.name), 1);
+    rep.distinct(Hasher::new().s("st").s(s.name).u(n as u64).f(a).f(b).u(rooted as u64).finish(), true);
+    let (i0, iallow) = smooth_integral(s, a, b);
+    let integral = Dd::new(i0) - Dd::new(shift) * Dd::sum2(b, -a);
+    let (lo, hi) = (a.min(b), a.max(b));
+    let m2 = (s.m2)(lo, hi);
+    let w = (b - a).abs();
+    let h = w / n as f64;
+    let desc = json!({"f": s.name, "minus_constant": shift});
+    match apply_probed(rule, &f, a, b) {
+        Err(msg) => {
+            rep.check("C07.trapz.no_panic", regime, false, || ctx(rule, desc.clone(), a, b, json!({"panic": msg})));
+        }
+        Ok((q, nev, m0)) => {
+            let x = lo.abs().max(hi.abs());
+            let rounding = 32.0 * gamma_n(nev as usize + 4) * w * m0 + 8.0 * U * x * (2.0 * m0 + m2 * w * w) + iallow + 4.0 * U * shift.abs() * w;
+            let bound = w * h * h / 12.0 * m2 * (1.0 + 1e-9) + rounding + 1e-300;
+            let err = (Dd::new(q) - integral).f().abs();
+            let ratio = if err.is_nan() { f64::INFINITY } else { err / bound };
+            rep.note_max(if regime.ends_with("f(a)=0") { "worst_ratio.trapz_error_bound.f(a)=0" } else { "observed_worst_ratio.trapz_error_bound.f(a)!=0" }, ratio);
+            rep.check("C07.trapz.error_bound", regime, err <= bound, || {
+                ctx(rule, desc.clone(), a, b, json!({"observed": jnum(q), "integral": integral.f(), "abs_err": jnum(err), "bound": bound, "h": h, "max_f2": m2, "f(a)": jnum(f(a)), "h*f(a)": jnum(h * f(a))}))
+            });
+        }
+    }
+}
+
+/// Romberg with a requested tolerance on the smooth catalogue
+fn smooth_romberg(rng: &mut Rng, rep: &mut Report, cat: &[Smooth], max_levels: usize) {
+    let mut s = rng.choose(cat);
+    let (mut a, mut b) = smooth_interval(rng, s, s.rlen, false);
+    let mut nmax = if rng.chance(0.75) { rng.usize(2, 14.min(max_levels)) } else { rng.usize(2, max_levels) };
+    if rng.chance(0.08) {
+        // aliasing intervals: the integrand (nearly) vanishes or repeats at a, the midpoint and b, so the two
+        // coarsest estimates agree although both are wrong — the reason the stopping rule waits for
+        // level 2; on the last one levels 0..2 all alias (method limitation, regime criterion-fooled)
+        const ALIAS: [(&str, f64, f64); 6] = [("sin^2 x cos^2 x", 0.0, PI), ("sin^2 x cos^2 x", -FRAC_PI_2, FRAC_PI_2), ("x sin x", 0.0, 2.0 * PI), ("x sin x", -2.0 * PI, 0.0), ("cos x", 0.0, 4.0 * PI), ("sin^2 x cos^2 x", 0.0, 2.0 * PI)];
+        let (name, x0, x1) = *rng.choose(&ALIAS);
+        s = cat.iter().find(|e| e.name == name).unwrap();
+        a = x0;
+        b = x1;
+        if rng.chance(0.3) {
+            std::mem::swap(&mut a, &mut b);
+        }
+        nmax = rng.usize(8, 14.min(max_levels));
+        rep.seen("romberg:smooth:aliasing-interval", 1);
+    }
+    orient(rep, a, b);
+    let tau = 10f64.powi(-(rng.usize(3, 12) as i32));
+    let fp = s.f;
+    let f = |t: f64| fp(t);
+    let (i0, iallow) = smooth_integral(s, a, b);
+    let scale = i0.abs().max(1.0);
+    let p = Probe::new();
+    let got = guard(|| romberg(|t| p.hit(f(t)), a, b, tau, nmax));
+    let desc = json!({"f": s.name, "eps": tau, "nmax": nmax});
+    rep.seen(&format!("romberg:nmax={}", nmax), 1);
+    rep.seen(&format!("romberg:tau=1e{}", tau.log10().round() as i32), 1);
+    rep.distinct(Hasher::new().s("sr").s(s.name).u(nmax as u64).f(tau).f(a).f(b).finish(), true);
+    let q = match got {
+        Err(msg) => {
+            rep.case("romberg:smooth:panic");
+            rep.check("C07.romberg.no_panic", "romberg:smooth", false, || json!({"integrand": desc.clone(), "a": a, "b": b, "panic": msg}));
+            return;
+        }
+        Ok(q) => q,
+    };
+    let w = (b - a).abs();
+    let m0 = p.m.get();
+    // rounding noise of a level-n diagonal entry (2^n + 1 integrand values enter it)
+    let noise = |n: usize| 32.0 * gamma_n((1usize << n) + 5) * w * m0 + iallow;
+    // what could the exact-arithmetic method have done within this level budget?
+    let mut tab = RefTab::new(&f, a, b);
+    let mut candidates: Vec<usize> = Vec::new();
+    let mut sure: Option<usize> = None;
+    for n in 2..nmax {
+        let (d1, d0) = (tab.diag(n), tab.diag(n - 1));
+        if stop_crit(d1, d0, 4.0 * tau + 2.0 * noise(n)) {
+            candidates.push(n);
+        }
+        // the library certainly stops here: the reference meets the criterion at eps/2 and the
+        // rounding noise of the library's own entries cannot push its difference above eps
+        if stop_crit(d1, d0, 0.5 * tau) && noise(n) <= tau / 8.0 * d1.abs().min(d0.abs()).max(1.0) {
+            sure = Some(n);
+            break;
+        }
+    }
+    let regime;
+    match sure {
+        None => {
+            regime = "romberg:smooth:undecided(budget-short-or-rounding-limited)";
+            rep.case(regime);
+            // nothing is promised when the budget runs out; the value must at least be finite
+            rep.check("C07.romberg.finite", regime, q.is_finite(), || json!({"integrand": desc.clone(), "a": a, "b": b, "observed": jnum(q)}));
+        }
+        Some(ns) => {
+            let genuine = candidates.iter().all(|&m| (tab.diag(m) - i0).abs() <= 10.0 * tau * scale + noise(m));
+            if !genuine {
+                regime = "romberg:smooth:criterion-fooled";
+                rep.case(regime);
+                rep.check("C07.romberg.finite", regime, q.is_finite(), || json!({"integrand": desc.clone(), "a": a, "b": b, "observed": jnum(q)}));
+            } else {
+                regime = "romberg:smooth:budget-suffices";
+                rep.case(regime);
+                let tol = 100.0 * tau * scale + noise(ns);
+                let err = (q - i0).abs();
+                rep.note_max("worst_ratio.romberg_tolerance_order", if err.is_nan() { f64::INFINITY } else { err / tol });
+                rep.note_max("worst_err_over_tau.romberg", if err.is_nan() { f64::INFINITY } else { (err - noise(ns)).max(0.0) / (tau * scale) });
+                rep.check("C07.romberg.tolerance_order", regime, err <= tol, || {
+                    json!({"integrand": desc.clone(), "a": a, "b": b, "observed": jnum(q), "integral": i0, "abs_err": jnum(err), "tol": tol, "reference_stop_levels": candidates.clone(), "evaluations": p.n.get()})
+                });
+            }
+        }
+    }
+    rep.sample(|| json!({"rule": "romberg", "integrand": desc.clone(), "a": a, "b": b, "observed": jnum(q), "integral": i0, "regime": regime}));
+}
+
+/// trapezoid(y, x | dx) = Σ (y_i + y_{i−1})/2 · Δx_i
+fn samples(rng: &mut Rng, rep: &mut Report, maxlen: usize) {
+    let n = match rng.usize(0, 3) {
+        0 => rng.usize(2, 9),
+        _ => rng.log_range(2.0, maxlen as f64 + 0.99).floor() as usize,
+    };
+    let n = n.clamp(2, maxlen);
+    let ys = 10f64.powf(rng.range(-3.0, 3.0));
+    let off = if rng.chance(0.3) { rng.normal() * 100.0 * ys } else { 0.0 };
+    let y: Vec<f64> = (0..n).map(|_| off + rng.normal() * ys).collect();
+    let kind = rng.usize(0, 3);
+    let (regime, xs, dx): (&str, Option<Vec<f64>>, Option<f64>) = match kind {
+        0 => {
+            let (x0, h) = (rng.range(-1e3, 1e3), rng.log_range(1e-3, 10.0));
+            ("samples:x-uniform", Some((0..n).map(|i| x0 + i as f64 * h).collect()), None)
+        }
+        1 => {
+            let (mut c, sc) = (rng.range(-1e3, 1e3), rng.log_range(1e-3, 10.0));
+            let r = *rng.choose(&[10.0, 1e3, 1e6]);
+            let mut v = Vec::with_capacity(n);
+            for _ in 0..n {
+                v.push(c);
+                c += sc * rng.log_range(1.0, r);
+            }
+            ("samples:x-nonuniform", Some(v), None)
+        }
+        2 => ("samples:dx", None, Some(rng.log_range(1e-3, 10.0) * if rng.chance(0.1) { -1.0 } else { 1.0 })),
+        _ => ("samples:default-dx", None, None),
+    };
+    rep.case(regime);
+    rep.seen(if n <= 9 { "samples:len=2..9" } else if n <= 1000 { "samples:len=10..1000" } else { "samples:len>1000" }, 1);
+    let mut h = Hasher::new().s(regime).fs(&y);
+    if let Some(x) = &xs {
+        h = h.fs(x);
+    }
+    rep.distinct(h.f(dx.unwrap_or(0.0)).finish(), n >= 3);
+    let mut sref = Dd::ZERO;
+    let mut sabs = 0.0;
+    for i in 1..n {
+        let d = match &xs {
+            Some(x) => Dd::sum2(x[i], -x[i - 1]),
+            None => Dd::new(dx.unwrap_or(1.0)),
+        };
+        let t = Dd::sum2(y[i], y[i - 1]) * Dd::new(0.5) * d;
+        sref = sref + t;
+        sabs += t.f().abs();
+    }
+    let got = guard(|| trapezoid(&y, xs.as_deref(), dx));
+    let detail = |obs: Value, extra: Value| json!({"y": jf(&y), "x": xs.as_ref().map(|x| jf(x)), "dx": dx, "n": n, "observed": obs, "expected": sref.f(), "detail": extra});
+    match got {
+        Err(msg) => {
+            rep.check("C07.trapezoid.no_panic", regime, false, || detail(json!({"panic": msg}), json!(null)));
+        }
+        Ok(q) => {
+            rep.check("C07.trapezoid.no_panic", regime, true, || json!(null));
+            let tol = 8.0 * gamma_n(n + 3) * sabs + 1e-300;
+            let err = (Dd::new(q) - sref).f().abs();
+            rep.note_max("worst_ratio.trapezoid_samples", if err.is_nan() { f64::INFINITY } else { err / tol });
+            rep.check("C07.trapezoid.samples", regime, err <= tol, || detail(jnum(q), json!({"abs_err": jnum(err), "tol": tol})));
+        }
+    }
+}
+
+pub fn run(cfg: &Cfg, rep: &mut Report) {
+    rep.rule = "rule x integrand x interval evaluations. intervals: end points in +-1e3 (wide, unit-scale, symmetric, narrow-far-from-0, dyadic, [0,c]), 40% with a > b, a = b separately; trapz panels 1..4096; romberg(eps=0) level budgets 2..12 on monomials/random polynomials up to degree 2k-1 (<= 23) and 13..20 on degree <= 3; quad5 degrees 0..9 (10..19 recorded, not asserted); linearity and antisymmetry per rule; 22 smooth integrands for the trapezoid error bound and romberg with eps in 1e-3..1e-12, budgets 2..20; sampled trapezoid lengths 2..1e4 with uniform x, non-uniform x (spacing ratios to 1e6), dx, default dx. one evaluation = one relation checked (1-3 library calls). non-trivial = non-constant integrand, a != b (samples: length >= 3); distinct by (rule, parameters, limits, integrand)".into();
+    rep.assume("integrands are finite on the interval; smooth catalogue entries are used inside their natural domain only (exp on +-10, 1/x on [0.1,1e3], ...)");
+    rep.assume("romberg linearity / antisymmetry / polynomial exactness are judged at eps = 0 (fixed tableau); with eps > 0 the stopping level depends on the integrand");
+    rep.assume("romberg tolerance-order bound is asserted only when the exact-arithmetic method (reference tableau in double-double) converges within the level budget and its stopping criterion is not fooled (every level at which it could stop is within 10*eps*max(1,|I|)); other cases are counted under romberg:smooth:undecided(...) / criterion-fooled");
+    rep.assume("quad5 is required to be exact to degree 9 only; degrees 10..19 are recorded (info.*) but not asserted");
+    rep.assume("max|f''| is an upper bound evaluated from the closed form at the end points and interior stationary points");
+    let cat = catalogue();
+    let cat = &cat;
+    let n_trapz = cfg.pick(1200, 20000, 10);
+    let n_romb = cfg.pick(1200, 20000, 10);
+    let n_deep = cfg.pick(10, 160, 0);
+    let n_quad = cfg.pick(800, 12000, 10);
+    let n_lin = cfg.pick(300, 5000, 3); // per rule
+    let n_anti = cfg.pick(300, 5000, 3); // per rule
+    let n_zero = cfg.pick(50, 500, 2);
+    let n_strapz = cfg.pick(900, 15000, 10);
+    let n_sromb = cfg.pick(500, 8000, 6);
+    let n_samp = cfg.pick(600, 10000, 8);
+    let max_levels = if cfg.miri() { 8 } else { 20 };
+    let maxlen = if cfg.miri() { 40 } else { 10_000 };
+    par_cases(cfg, rep, 1, n_trapz, |_i, rng, rep| exact_trapz(rng, rep));
+    par_cases(cfg, rep, 2, n_romb, |_i, rng, rep| exact_romberg(rng, rep, false));
+    par_cases(cfg, rep, 3, n_deep, |_i, rng, rep| exact_romberg(rng, rep, true));
+    par_cases(cfg, rep, 4, n_quad, |_i, rng, rep| exact_quad5(rng, rep));
+    par_cases(cfg, rep, 5, 3 * n_lin, |i, rng, rep| linearity(rng, rep, i % 3, cat));
+    par_cases(cfg, rep, 6, 3 * n_anti, |i, rng, rep| antisymmetry(rng, rep, i % 3, cat));
+    par_cases(cfg, rep, 7, n_zero, |_i, rng, rep| zero_width(rng, rep, cat));
+    par_cases(cfg, rep, 8, n_strapz, |_i, rng, rep| smooth_trapz(rng, rep, cat));
+    par_cases(cfg, rep, 9, n_sromb, |_i, rng, rep| smooth_romberg(rng, rep, cat, max_levels));
+    par_cases(cfg, rep, 10, n_samp, |_i, rng, rep| samples(rng, rep, maxlen));
+    // the DESIGN probe, literally: trapz(1, 0, 1, 4) and trapz(x, 0, 1, 4)
+    par_cases(cfg, rep, 11, 1, |_i, _rng, rep| {
+        let one = Poly::monomial(0);
+        let f = |t: f64| one.eval(t);
+        rep.case("trapz:affine:f(a)!=0");
+        check_exact(rep, "C07.trapz.affine_exact", "trapz:affine:f(a)!=0", Rule::Trapz(4), &one, &f, 1.0, 0.0, 1.0, Dd::ONE, true);
+        let id = Poly::monomial(1);
+        let g = |t: f64| id.eval(t);
+        rep.case("trapz:affine:f(a)=0");
+        check_exact(rep, "C07.trapz.affine_exact", "trapz:affine:f(a)=0", Rule::Trapz(4), &id, &g, 1.0, 0.0, 1.0, Dd::new(0.5), true);
+    });
+    // under Miri the workload is a smoke run of a few dozen calls: only the rule-level regimes are required there
+    let basic = ["trapz:linearity", "romberg:linearity", "quad5:linearity", "samples:x-uniform", "interval:a<b"];
+    let full = [
+        "trapz:affine:f(a)=0", "trapz:affine:f(a)!=0", "romberg:monomial:k=2..12", "romberg:randpoly:k=2..12", "quad5:monomial:deg<=9", "quad5:randpoly:deg<=9",
+        "trapz:f(a)=f(b):antisymmetry", "trapz:f(a)!=f(b):antisymmetry", "romberg:antisymmetry", "quad5:antisymmetry",
+        "a=b", "trapz:smooth:f(a)=0", "trapz:smooth:f(a)!=0", "romberg:smooth:budget-suffices", "samples:x-nonuniform", "samples:dx", "samples:default-dx",
+        "interval:a>b", "interval:a=b",
+    ];
+    for r in basic {
+        rep.require(r, 1);
+    }
+    if !cfg.miri() {
+        for r in full {
+            rep.require(r, 1);
+        }
+    }
+    if !cfg.lite {
+        rep.require("romberg:lowdeg:k=13..20", 1);
+        rep.require("romberg:top-degree-2k-1", 10);
+        rep.require("romberg:smooth:aliasing-interval", 1);
+        for k in 2..=12 {
+            rep.require(&format!("romberg:k={}", k), 1);
+        }
+        for d in 0..=9 {
+            rep.require(&format!("quad5:deg={}", d), 1);
+        }
+        for s in cat.iter() {
+            rep.require(&format!("smooth:{}", s.name), 1);
+        }
+        for r in ["samples:len=2..9", "samples:len=10..1000", "samples:len>1000"] {
+            rep.require(r, 1);
+        }
+    }
 }
